@@ -99,6 +99,8 @@ def prefix_named_cases():
                 nm, disp, o = gs[i]
                 r.group("cr", nm, display=disp, opts=o)
             r.group("cr::x10", "inner", display="In Ten", opts="t")
+            r.group("cr::x1", "inner", display="In One", opts="f")
+            r.group("cr::x", "inner", display="In Ex")
             out.append(r.line("TRL", ign=flag))
     return out
 
